@@ -218,6 +218,18 @@ def _check_certificate(o: Oracle, ck, other_ck, want_numbers, kind: str) -> None
         o.check("certificate", c.validate(c) is True and c.self_signed is True, "self_signature")
         other = Certificate.parse(K.cert_der(K.make_cert(other_ck, subject_cn="c08 other")))
         o.check("certificate", c.validate(other) is False, "foreign_issuer_accepted")
+    # a chain whose members were signed with different hashes (openssl-made PKIs often are): each certificate is checked with the
+    # hash its own signature names
+    from spsdk.crypto.certificate import validate_certificate_chain
+
+    h_root, h_leaf = (("sha512", "sha256"), ("sha256", "sha384"), ("sha384", "sha512"))[want_numbers[0] % 3]
+    with o.spsdk("certificate", "mixed_hash_chain"):
+        root = Certificate.parse(K.cert_der(K.make_cert(ck, subject_cn="c08 root", sign_hash=h_root)))
+        leaf = Certificate.parse(K.cert_der(K.make_cert(other_ck, ck, subject_cn="c08 leaf", issuer_cn="c08 root", ca=False, sign_hash=h_leaf)))
+        o.check("certificate", root.validate(root) is True, "mixed_hash:root_self_signature", h_root)
+        o.check("certificate", leaf.validate(root) is True, "mixed_hash:leaf_under_root", "%s leaf under %s root" % (h_leaf, h_root))
+        o.eq("certificate", "mixed_hash:chain", validate_certificate_chain([leaf, root]), [True])
+        o.check("certificate", root.validate(leaf) is False, "mixed_hash:root_under_leaf_accepted")
     # a certificate signed through SPSDK's own builder: the signature over the TBS bytes is an ordinary signature
     from cryptography import x509
     from cryptography.x509.oid import NameOID
